@@ -242,6 +242,8 @@ def examine_parse(case):
             break
     else:
         fields = [t]
+    if any(len(f) > 4000 for f in fields):
+        return out          # beyond Python's own limit for reading an integer from text: only "number or ValueError" applies
     stripped = [f.strip() for f in fields]
     if stripped != fields and r[0] == 'ret' and all(f.isascii() and re.match(r'^\+?\d+$', f) for f in stripped):
         # integer fields dressed the way int() tolerates (a plus sign, blanks, a trailing newline): the library need not
@@ -359,6 +361,14 @@ def run(ctx):
         if vs:
             ctx.violations(vs)
     t()
+    # very long texts: thousands of fields, good and bad last field, both separators ("any text whatsoever")
+    for n in (300, 1200, 3000, 20000):
+        for text in ('0:' * n + '1.5', '0;' * n + 'x', '1:' * n + '2', ':' * n, '1' * n, '0:' * n + '1' * 400 + '.5'):
+            ctx.count()
+            ctx.label('parse_hms-very-long-text')
+            vs = examine_parse({'kind': 'parse', 'text': text})
+            if vs:
+                ctx.violations(vs)
     nrng = random.Random(derive_seed(ctx.seed, 'C06-numbers'))
     for x in [0, 1, 59, 60, 61, 3599, 3600, 86400, 2 ** 53 + 1, 10 ** 30, 0.0, 0.5, 59.99, 60.0, 3670.1, 1e-9, 1e300] + \
             [nrng.randrange(0, 400000) for _ in range(200)] + [nrng.randrange(0, 40000000) / 100.0 for _ in range(200)]:
